@@ -18,8 +18,8 @@ DEPTH_SPEC = r'''
 pub open spec fn child_set(doc: ExecutableDocument, sel: Selection) -> Option<SelectionSet> {
     match sel {
         Selection::Field(f) => if f.node.selection_set.node.items.len() > 0 { Some(f.node.selection_set.node) } else { None },
-        Selection::FragmentSpread(s) => if doc.fragments.view().contains_key(s.node.fragment_name.node.text()) {
-                Some(doc.fragments.view()[s.node.fragment_name.node.text()].node.selection_set.node) } else { None },
+        Selection::FragmentSpread(s) => if doc.fragments.view().contains_key(s.node.fragment_name.node@) {
+                Some(doc.fragments.view()[s.node.fragment_name.node@].node.selection_set.node) } else { None },
         Selection::InlineFragment(i) => Some(i.node.selection_set.node),
     }
 }
@@ -45,8 +45,8 @@ DIR_SPEC = r'''
 pub open spec fn sub_set(doc: ExecutableDocument, sel: Selection) -> Option<SelectionSet> {
     match sel {
         Selection::Field(f) => Some(f.node.selection_set.node),
-        Selection::FragmentSpread(s) => if doc.fragments.view().contains_key(s.node.fragment_name.node.text()) {
-                Some(doc.fragments.view()[s.node.fragment_name.node.text()].node.selection_set.node) } else { None },
+        Selection::FragmentSpread(s) => if doc.fragments.view().contains_key(s.node.fragment_name.node@) {
+                Some(doc.fragments.view()[s.node.fragment_name.node@].node.selection_set.node) } else { None },
         Selection::InlineFragment(i) => Some(i.node.selection_set.node),
     }
 }
